@@ -477,8 +477,10 @@ def check_C12(tier):
     res.add_mc(tlc_model_check("MC_Accuracy", cfg, "mc_accuracy_" + tier, expect_actions=["Pick"], workers=4))
     trace = os.path.join(BUILD, "traces", "C12_trace.ndjson")
     batches, size = (3, 200) if tier == "quick" else (30, 400)
+    # plus one batch per judged sub-population (gain 0.5 / 0.2 / 0.1, 3 and 4 tracks, steep 4-track, vertex at
+    # the centre / the ends, tight / straight tracks)
     res.evaluations += run_vh(["accuracy", "--data", os.path.join(REPO, "physics", "data"), "--batches", str(batches),
-                               "--size", str(size), "--seed", str(seed())], trace, timeout=7200)
+                               "--size", str(size), "--seed", str(seed()), "--strata-every", "1"], trace, timeout=7200)
     validate_dec_trace(res, trace, "C12", module="Trace_Accuracy", descriptor=acc_descriptor)
     nev = 0
     nfound = 0
@@ -489,7 +491,7 @@ def check_C12(tier):
             nfound += sum(1 for v in rec.get("reco", []) if v)
             if len(res.samples) < 1:
                 res.add_sample({"case": rec.get("case"), "n": rec.get("n"), "first_truth": rec["truth"][:3], "first_reco": rec["reco"][:3]})
-    res.distinct = batches
+    res.distinct = count_lines(trace)
     res.evaluations = nev
     res.extra["events"] = nev
     res.extra["events_with_vertex"] = nfound
